@@ -42,7 +42,7 @@ func main() {
 			if tier == "thorough" {
 				return 17 * time.Minute
 			}
-			return 60 * time.Second
+			return 100 * time.Second
 		},
 	})
 }
